@@ -92,7 +92,7 @@ func init() {
 		byItem := map[string]*corp.Item{}
 		for _, it := range c.Items {
 			byItem[it.ID] = it
-			if !it.GenOK {
+			if !it.GenOK && !skipNotCompiling(it) {
 				r.Violate("c07gen", it.Text, fmt.Sprintf("gocc refuses a conflict-free grammar with error alternatives: exit %d %s\n  grammar: %s", it.Exit, it.Stdout, oneLine(it.Text)), map[string]any{"grammar": it.Text})
 			}
 		}
